@@ -253,17 +253,20 @@ def handleCrash (c : Case) : Verdict :=
     let cut := match c.find "cut" with | some r => s!"k={r.getD 1 "?"} done={r.getD 2 "?"}" | none => "?"
     -- `check` can only be required to stay clean if it was clean before prune started
     let pre := match c.find "pre" with | some r => r.getD 1 "1" == "1" | none => true
-    if v.getD 2 "0" != "0" then .specfalse ("C09:crash:snapshot-content-lost" ++ tag) s!"{cut} bad={v.getD 2 "?"}/{v.getD 3 "?"} opts={optLabels o mu}"
-    else if pre && v.getD 1 "1" != "1" then .specfalse ("C09:crash:check-reports-errors" ++ tag) s!"{cut} {v.getD 4 ""} opts={optLabels o mu}"
+    if v.getD 2 "0" != "0" then .specfalse ("C09:" ++ c.stream ++ ":snapshot-content-lost" ++ tag) s!"{cut} bad={v.getD 2 "?"}/{v.getD 3 "?"} opts={optLabels o mu}"
+    else if pre && v.getD 1 "1" != "1" then .specfalse ("C09:" ++ c.stream ++ ":check-reports-errors" ++ tag) s!"{cut} {v.getD 4 ""} opts={optLabels o mu}"
     else
       match c.find "rerun" with
       | some r =>
         if r.getD 3 "0" != "0" then .specfalse ("C09:rerun:snapshot-content-lost" ++ tag) s!"{cut} rerun={r.getD 1 "?"}"
         else if pre && r.getD 2 "1" != "1" then .specfalse ("C09:rerun:check-reports-errors" ++ tag) s!"{cut} rerun={r.getD 1 "?"} {r.getD 4 ""}"
-        else .agree true (labs ++ optLabels o mu ++ ["crash+rerun", if (r.getD 1 "").startsWith "ok" then "rerun-ok" else "rerun-refused"])
+        else
+          let ft := match c.find "fault" with | some r => [s!"fault:{r.getD 1 "-"}-{r.getD 2 "-"}"] | none => []
+          .agree true (labs ++ optLabels o mu ++ ft ++ [c.stream ++ "+rerun", if (r.getD 1 "").startsWith "ok" then "rerun-ok" else "rerun-refused"])
       | none =>
         let crashed := match c.find "cut" with | some r => r.getD 4 "0" == "1" | none => false
-        .agree true (labs ++ optLabels o mu ++ [if crashed then "crash" else "cut-beyond-end"])
+        let ft := match c.find "fault" with | some r => [s!"fault:{r.getD 1 "-"}-{r.getD 2 "-"}"] | none => []
+        .agree true (labs ++ optLabels o mu ++ ft ++ [if crashed then c.stream else "cut-beyond-end"])
 
 /-! ### C10: completed full prune -/
 
@@ -355,6 +358,7 @@ def handle (c : Case) : Verdict :=
   | "plan" => handlePlan c
   | "trace" => handleTrace c
   | "crash" => handleCrash c
+  | "fault" => handleCrash c
   | "full" => handleFull c
   | "skip" => .agree false ["skipped:" ++ (match c.find "why" with | some r => r.getD 1 "?" | none => "?")]
   | s => .differ "protocol" ("unknown-substream-" ++ s)
